@@ -409,7 +409,7 @@ Section ValuesValid.
         { destruct (negb (c =? t)); [apply pens_liftR_err|]. apply pens_ret. apply strs_valid_build; [assumption|exact I]. }
         destruct (c =? 46).
         { apply pens_bind_any; [apply psat_rk_liftR; apply (sat_bind Rrk Rrk_seq); [exact rk_eat|intros _; rk_solve]|]. intros nx.
-          destruct ((nx =? 0) || is_delimiter nx)%bool.
+          destruct (lone_dot nx).
           - destruct acc as [|x acc'].
             + apply pens_bind_any; [prk|]. intros o3. destruct o3; apply pens_liftR_err.
             + apply (pens_bind k _ _ opt_valid strs_valid); [prk|exact IHv|]. intros ov Hov.
